@@ -1142,15 +1142,19 @@ class Interp:
         if isinstance(it, ListObj) and it.symbolic and it.elem.startswith("ref:") and hasattr(self.world, "broadcast"):
             # `for o in <symbolic list of objects>: o.m(args)` == one broadcast event over the whole list
             b = st.body
-            if (len(b) == 1 and isinstance(b[0], ast.Expr) and isinstance(b[0].value, ast.Call)
-                    and isinstance(b[0].value.func, ast.Attribute) and isinstance(b[0].value.func.value, ast.Name)
-                    and isinstance(st.target, ast.Name) and b[0].value.func.value.id == st.target.id
-                    and not st.orelse and not b[0].value.keywords):
-                argnames = {n.id for a in b[0].value.args for n in ast.walk(a) if isinstance(n, ast.Name)}
-                if st.target.id not in argnames:
-                    args = self.eval_elts(b[0].value.args, env)
-                    self.world.broadcast(self, it, b[0].value.func.attr, args)
-                    return
+            ok = isinstance(st.target, ast.Name) and not st.orelse and len(b) >= 1
+            for s_ in b:
+                ok = ok and (isinstance(s_, ast.Expr) and isinstance(s_.value, ast.Call)
+                             and isinstance(s_.value.func, ast.Attribute) and isinstance(s_.value.func.value, ast.Name)
+                             and s_.value.func.value.id == st.target.id and not s_.value.keywords
+                             and st.target.id not in {n.id for a in s_.value.args for n in ast.walk(a) if isinstance(n, ast.Name)})
+            if ok:
+                calls = [(s_.value.func.attr, self.eval_elts(s_.value.args, env)) for s_ in b]
+                if len(calls) == 1:
+                    self.world.broadcast(self, it, calls[0][0], calls[0][1])
+                else:
+                    self.world.broadcast_multi(self, it, calls)
+                return
         if isinstance(it, IterVal):
             # consume the iterator step by step (shared position)
             n = 0
@@ -1326,6 +1330,23 @@ class Interp:
         if k is ast.Tuple:
             return tuple(self.eval_elts(node.elts, env))
         if k is ast.List:
+            if any(isinstance(e, ast.Starred) for e in node.elts):
+                # [*xs, y] over a symbolic list: a sequence term
+                parts, elem, sym = [], "val", False
+                for e in node.elts:
+                    if isinstance(e, ast.Starred):
+                        v = self.eval(e.value, env)
+                        if isinstance(v, ListObj) and v.symbolic:
+                            sym, elem = True, v.elem
+                            parts.append(("seq", v.term))
+                        else:
+                            parts.extend(("one", x) for x in self.iterate(v))
+                    else:
+                        parts.append(("one", self.eval(e, env)))
+                if not sym:
+                    return ListObj([x for _, x in parts])
+                ts = [t if kind == "seq" else z3.Unit(self.to_val(t)) for kind, t in parts]
+                return ListObj(term=z3.Concat(*ts) if len(ts) > 1 else ts[0], elem=elem)
             return ListObj(self.eval_elts(node.elts, env))
         if k is ast.Dict:
             d = DictObj()
